@@ -154,7 +154,9 @@ struct crs {
         nrows(other.nrows), ncols(other.ncols), nnz(other.nnz),
         ptr(0), col(0), val(0), own_data(true)
     {
-        if (other.ptr && other.col && other.val) {
+        // A matrix without non-zeros may legitimately have null col/val arrays
+        // (e.g. data() of empty user vectors behind a zero-copy view).
+        if (other.ptr && (other.nnz == 0 || (other.col && other.val))) {
             ptr = new ptr_type[nrows + 1];
             col = new col_type[nnz];
             val = new val_type[nnz];
@@ -198,7 +200,9 @@ struct crs {
         ncols = other.ncols;
         nnz   = other.nnz;
 
-        if (other.ptr && other.col && other.val) {
+        // A matrix without non-zeros may legitimately have null col/val arrays
+        // (e.g. data() of empty user vectors behind a zero-copy view).
+        if (other.ptr && (other.nnz == 0 || (other.col && other.val))) {
             ptr = new ptr_type[nrows + 1];
             col = new col_type[nnz];
             val = new val_type[nnz];
